@@ -17,11 +17,14 @@ std::vector<long double> jacobi_eigenvalues(LRows a)
 	int n = (int) a.size();
 	for(int sweep = 0; sweep < 100; sweep++)
 	{
-		long double off = 0;
+		long double off = 0, dia = 0;
 		for(int p = 0; p < n; p++)
+		{
+			dia += a[(size_t) p][(size_t) p] * a[(size_t) p][(size_t) p];
 			for(int q = p + 1; q < n; q++)
 				off += a[(size_t) p][(size_t) q] * a[(size_t) p][(size_t) q];
-		if(off < 1e-70L)
+		}
+		if(off <= 1e-70L * dia || off == 0)	  // relative to the matrix: any overall scale
 			break;
 		for(int p = 0; p < n; p++)
 			for(int q = p + 1; q < n; q++)
@@ -64,7 +67,7 @@ Sym gen_symmetric(Src& s)
 	int n = (int) s.range(1, 7);
 	S.n	  = n;
 	S.lam.resize((size_t) n);
-	long double mag = powl(10.0L, (long double) s.uniform(-3, 3));
+	long double mag = powl(10.0L, (long double) (s.chance(0.15) ? s.sign() * s.uniform(3, 30) : s.uniform(-3, 3)));   // any overall scale
 	for(int i = 0; i < n; i++)
 	{
 		S.lam[(size_t) i] = mag * (s.coin() ? 1 : -1);
@@ -126,8 +129,19 @@ VCLAUSE(qr_decomposition, 200, 8000, 160000, "n >= 3 and the matrix is not diago
 	int n  = (int) s.range(1, 7);
 	Rows a;
 	double cond = 1;
-	int kind = s.pick({4, 2, 2, 2});
-	if(kind == 0)
+	int kind = s.pick({4, 2, 2, 2, 2});
+	if(kind == 4)
+	{
+		// nearly triangular: a well-conditioned upper triangle plus a lower part smaller by 1e-16..1e-3 (sub-diagonal entries whose squares
+		// vanish beside the diagonal are still part of the matrix)
+		double g = std::pow(10.0, s.uniform(-16, -3)), sc = std::pow(10.0, s.uniform(-3, 3));
+		a.assign((size_t) n, std::vector<double>((size_t) n, 0.0));
+		for(int i = 0; i < n; i++)
+			for(int j = 0; j < n; j++)
+				a[(size_t) i][(size_t) j] = sc * (j > i ? s.uniform(-1, 1) : (j == i ? s.sign() * s.uniform(2, 4) : g * s.uniform(-1, 1)));
+		c.cls("nearly_upper_triangular");
+	}
+	else if(kind == 0)
 	{
 		LRows q1 = gen_orthogonal(s, n, 3 * n), q2 = gen_orthogonal(s, n, 3 * n), sg = l_identity((size_t) n);
 		double u = s.uniform(0, 6), sc = std::pow(10.0, s.uniform(-3, 3));
